@@ -304,6 +304,7 @@ let () =
             outs := out_str false (step (Client.OSend (kk, false, true, false))) :: !outs
           | "next" -> outs := out_str false (step (Client.ONext kk)) :: !outs
           | "recv" -> outs := out_str false (step (Client.ORecv kk)) :: !outs
+          | "drop" -> outs := out_str false (step (Client.ODrop kk)) :: !outs
           | _ -> outs := "BAD-OP" :: !outs) ops;
       let s = !st in
       let sent = Stdlib.List.rev_map (fun (((k, ow), mo), up) ->
